@@ -262,6 +262,9 @@ type pathCtx struct {
 	lastPanicStack string
 	// native handles (regexp etc.) keyed by identity of interpreter pointers
 	natives map[*value]interface{}
+	// inline goroutine schedule: nesting depth of `go` bodies being run, and the channels made on this path
+	goDepth int
+	chans   []*chanObj
 }
 
 func (c *pathCtx) solver() *Solver { return c.w.solver }
